@@ -114,7 +114,7 @@ def run_alpha(prop: str, repo: str) -> Dict[str, Any]:
 
         def keys_of(tree: str):
             cp = subprocess.run([sys.executable, "-B", "-m", "upsa.cli", prop, "--repo", tree, "--tier", "quick", "--no-selftest", "--dump-keys"], cwd=VERIF, env=env, capture_output=True, text=True, timeout=300)
-            ks = sorted((k["rule"], k["function"]) for k in (json.loads(l) for l in cp.stdout.splitlines() if l.startswith("{")))
+            ks = sorted((k["rule"], k["function"], k["construct"]) for k in (json.loads(l) for l in cp.stdout.splitlines() if l.startswith("{")))
             return cp.returncode, ks, cp.stdout
 
         base_tree = tempfile.mkdtemp(prefix=f"upsa_{prop}_base_")
@@ -128,7 +128,7 @@ def run_alpha(prop: str, repo: str) -> Dict[str, Any]:
         if rc1 == 2:
             res["status"] = "analysis-error"
             res["detail"] = "after renaming locals: " + out1[-300:]
-        elif k0 != k1:
+        elif k0 != k1 or rc0 != rc1:
             res["status"] = "STILL-REPORTED"
             extra = [k for k in k1 if k not in k0]
             gone = [k for k in k0 if k not in k1]
